@@ -65,6 +65,7 @@ def scenarios(ctx, thorough):
                 if rng.random() < 0.2:
                     ops.append({"op": "mkgroup", "p": "/ng%d" % sidx})
             cases.append({"cfg": {"sb": sb, "rb": "", "style": t % 3, "tag": "C10-sessions"}, "ops": ops})
+    cases += L.neighbour_cases("C10-neighbours", True)
     return cases
 
 
